@@ -199,6 +199,9 @@ impl Property for P {
         let chunks = case.items.iter().any(|i| matches!(i, Item::Chunk(_)));
         out.class(if chunks { "raw-chunks" } else { "records" });
         let mut reference: Option<Vec<Vec<u8>>> = None;
+        // the same including empty files (a rotation carried out for an empty chunk, a file
+        // opened for nothing but empty chunks): every mode produces the same list as Direct
+        let mut reference_all: Option<Vec<Vec<u8>>> = None;
         let mut compared = 0;
         let mut rotated = false;
         for (i, mode) in case.modes.iter().enumerate() {
@@ -232,6 +235,16 @@ impl Property for P {
                 if all != input {
                     out.set_fail("chunk-concatenation-differs", format!("{mode:?}: {}", crate::util::diff_msg(&input, &all)));
                     return out;
+                }
+            }
+            let got_all: Vec<Vec<u8>> = fam.iter().map(|x| x.content.clone()).collect();
+            match &reference_all {
+                None => reference_all = Some(got_all),
+                Some(r) => {
+                    if *r != got_all {
+                        out.set_fail("mode-file-list-differs-from-direct", format!("{mode:?}: files (including empty ones) {} vs Direct {}", describe(&got_all), describe(r)));
+                        return out;
+                    }
                 }
             }
             match &reference {
